@@ -86,7 +86,7 @@ impl Gen {
         };
         // now and then as many labels as a name can hold: 127 one-octet labels are 255 octets, and a few short of that
         if want == 20 && self.rng.chance(1, 5) {
-            let n = *self.rng.pick(&[64usize, 100, 126, 127, 127]);
+            let n = *self.rng.pick(&[64usize, 100, 126, 127, 127, 7, 13, 33, 90, 119]);
             let pool = self.share.max(2) as u64;
             return (0..n).map(|_| vec![b'a' + self.rng.below(pool.min(26)) as u8]).collect();
         }
@@ -120,6 +120,9 @@ impl Gen {
             2 => 255,
             3 => 256,
             4 => self.rng.range(300, 1200) as usize,
+            // now and then several kilobytes (keys, certificates, signatures), past 4096 and 16384
+            5 if self.rng.chance(1, 4) => *self.rng.pick(&[4095usize, 4096, 4097, 9000, 16384, 20000]),
+            6 => self.rng.range(41, 254) as usize,
             _ => self.rng.range(0, 40) as usize,
         };
         let mut b = self.rng.bytes(n);
@@ -138,6 +141,8 @@ impl Gen {
             0 => 0,
             1 => 255,
             2 => 254,
+            // the middle of the range too (21 .. 253), not only its ends
+            3 => self.rng.range(21, 253) as usize,
             _ => self.rng.range(0, 20) as usize,
         };
         match self.rng.below(3) {
@@ -162,6 +167,7 @@ impl Gen {
 
     /// strictly increasing keys below `max`
     fn inc_keys(&mut self, max: u64, n: usize) -> Vec<u64> {
+        if n as u64 >= max { return (0..max).collect(); }
         let mut ks: Vec<u64> = (0..n).map(|_| match self.rng.below(5) {
             // the low keys are the assigned ones (SVCB: mandatory, alpn, ...; NSEC: window 0), where code is apt to look inside the value
             0 | 1 => self.rng.below(8),
@@ -177,7 +183,7 @@ impl Gen {
         // priority 0 is AliasMode; parameters are then unusual but legal on the wire
         let prio = if self.rng.chance(1, 5) { 0 } else { self.u16() };
         let mut s = SVCB::new(prio, self.name());
-        let n = self.rng.below(5) as usize;
+        let n = if self.rng.chance(1, 15) { self.rng.range(5, 300) as usize } else { self.rng.below(5) as usize };
         for k in self.inc_keys(65536, n) {
             let v = if self.rng.chance(1, 10) { self.blob() } else { let n = self.rng.below(12) as usize; self.rng.bytes(n) };
             s.set_param(k as u16, v).unwrap();
@@ -230,7 +236,7 @@ impl Gen {
                     let leaked: &'static str = Box::leak(s.into_boxed_str());
                     RData::TXT(TXT::try_from(leaked).unwrap())
                 } else {
-                    let n = self.rng.range(1, 4);
+                    let n = if self.rng.chance(1, 15) { *self.rng.pick(&[5u64, 9, 64, 255, 256, 257, 300]) } else { self.rng.range(1, 4) };
                     let mut t = TXT::new();
                     for _ in 0..n {
                         // every builder entry point: add_char_string, add_string, with_char_string, with_string
@@ -356,7 +362,8 @@ impl Gen {
                 digest: self.blob().into(),
             }),
             38 => {
-                let n = self.rng.below(4) as usize;
+                // up to three windows mostly; now and then dozens, or all 256 of them
+                let n = if self.rng.chance(1, 15) { *self.rng.pick(&[4usize, 17, 100, 255, 256]) } else { self.rng.below(4) as usize };
                 let maps = self
                     .inc_keys(256, n)
                     .into_iter()
